@@ -175,7 +175,7 @@ func init() {
 	reg(&Prop{ID: "C05", Level: "exploration",
 		Quick:    Tier{Cases: 9600, PerJob: 600, Seconds: 70},
 		Thorough: Tier{Cases: 640000, PerJob: 8000, Seconds: 1500},
-		Rule:     "one case = random tree created as root on tmpfs (<= 40 entries, depth <= 5: nested and empty directories, files of 0..16 KiB, symlinks to anything, char/block devices, user xattrs, arbitrary uid/gid, permission + set-id/sticky bits, arbitrary ns mtimes, names with any bytes except '/' and NUL) x digest {SHA512/256, SHA256} x one of {catar: Tar -> UnTar; caidx+store: Tar -> pipe -> ChunkStream(n) -> index written and re-read -> UnTarIndex(n) with a slow, reordering store, all under the seeded scheduler; GNU-tar output parsed with archive/tar; mtree output read back by an mtree(5) parser; tar-stream input built with archive/tar, optionally cut inside a member}; oracle: lstat/readlink/xattr/content/mtime snapshot of source and result equal (ranked categories), two packings byte-identical, chunked archive bytes == direct archive bytes; distinct = distinct (path, digest, size bucket, trace hash / tape); every case is non-trivial (a generated tree); 1/60 of the cases run the real `desync tar`, `desync untar` and `desync mtree` binaries (catar file or -i with a local store, default or --digest sha256, disk or --input-format tar input incl. a truncated tar file) on a generated tree with the same snapshot oracle; a fifth of the process-level cases run the command as a ptrace tracee and make one drawn file-system system call fail (ENOSPC / EIO / EDQUOT for calls that need space - once, or from then on as on a disk that stays full; EIO / EACCES / EPERM / EROFS for rename, unlink, chmod, chown, utimensat ...): the command may fail, but exit status 0 with a result the oracle rejects is a violation; the process-level cases also draw --no-same-owner, --no-same-permissions, --no-time and -x (each waives one attribute, the rest is compared, and with --no-same-owner everything must belong to the invoking user) and unpack the same archive with --output-format gnu-tar into a file that must be a whole number of 512-byte blocks, end in two zero blocks and list the tree; a third of the disk unpacks (both levels) go into a destination that already holds older entries at some of the archive's paths: files with other content and a stale xattr, two paths sharing one inode, a symlink where a file will be, a file where a symlink or device will be, directories with other permissions",
+		Rule:     "one case = random tree created as root on tmpfs (<= 40 entries, depth <= 5: nested and empty directories, files of 0..16 KiB, symlinks to anything, char/block devices, user xattrs, arbitrary uid/gid, permission + set-id/sticky bits, arbitrary ns mtimes, names with any bytes except '/' and NUL) x digest {SHA512/256, SHA256} x one of {catar: Tar -> UnTar; caidx+store: Tar -> pipe -> ChunkStream(n) -> index written and re-read -> UnTarIndex(n) with a slow, reordering store, all under the seeded scheduler; GNU-tar output parsed with archive/tar; mtree output read back by an mtree(5) parser; tar-stream input built with archive/tar, optionally cut inside a member}; oracle: lstat/readlink/xattr/content/mtime snapshot of source and result equal (ranked categories), two packings byte-identical, chunked archive bytes == direct archive bytes; distinct = distinct (path, digest, size bucket, trace hash / tape); every case is non-trivial (a generated tree); 1/60 of the cases run the real `desync tar`, `desync untar` and `desync mtree` binaries (catar file or -i with a local store, default or --digest sha256, disk or --input-format tar input incl. a truncated tar file) on a generated tree with the same snapshot oracle; a fifth of the process-level cases run the command as a ptrace tracee and make one drawn file-system system call fail (ENOSPC / EIO / EDQUOT for calls that need space - once, or from then on as on a disk that stays full; EIO / EACCES / EPERM / EROFS for rename, unlink, chmod, chown, utimensat ...): the command may fail, but exit status 0 with a result the oracle rejects is a violation; the process-level cases also draw --no-same-owner, --no-same-permissions, --no-time and -x (each waives one attribute, the rest is compared, and with --no-same-owner everything must belong to the invoking user) and unpack the same archive with --output-format gnu-tar into a file that must be a whole number of 512-byte blocks, end in two zero blocks and list the tree; a third of the disk unpacks (both levels) go into a destination that already holds older entries at some of the archive's paths: files with other content and a stale xattr, two paths sharing one inode, a symlink where a file will be, a file where a symlink or device will be, directories with other permissions; a quarter of the process-level untar runs happen as root without CAP_FSETID (the test binary drops it from the bounding set and execs the real binary): set-id bits must still come out as packed, except set-gid for a group the process is not in, which chmod(2) itself refuses",
 		Assumptions: []string{
 			"metadata fidelity is input coverage rather than simulation (DESIGN.md C05 honest limit); the simulated part is the five-stage chunked pipeline",
 			"GNU tar output: xattrs and sub-second mtimes are not compared (the format cannot carry them); a refusal by archive/tar is not a wrong result",
@@ -198,7 +198,7 @@ func init() {
 	reg(&Prop{ID: "C16", Level: "exploration",
 		Quick:    Tier{Cases: 32000, PerJob: 2000, Seconds: 70},
 		Thorough: Tier{Cases: 1600000, PerJob: 20000, Seconds: 1500},
-		Rule:     "one case = local store directory of 0..40 objects produced by a simulated history: valid chunks in the store's own format, the same chunk in both formats, chunks of the other format only, invalid chunks (bit flip, truncation, other data, emptied), abandoned .tmp-cacnk* files of killed writers, junk files incl. chunk-like names x store mode {compressed, uncompressed} x one of {Prune with reference set none / all / random subset / subset plus absent ids; Verify; Verify with repair, both with n in 1..6 workers sharing one writer under the seeded scheduler}; oracle: expected file set and expected set of reported ids, classified by an independent zstd+SHA validator; distinct = distinct (op, mode, object bucket, tape, trace hash); every case is non-trivial (a populated store); 1/120 of the cases run the real `desync prune -y` / `desync verify [-r]` binary on a compressed local store with unreferenced chunks, a corrupted chunk, a temporary file and junk; S3 keys with a chunk-like name in a directory that is only a prefix of the id, the whole id, empty, or upper case are among the objects that must survive; the process-level prune/verify cases run on compressed stores and on uncompressed ones named in a config file; the store directory itself may be hidden, contain blanks or end in the chunk extension, and abandoned temporary files may lie below a hidden sub-directory",
+		Rule:     "one case = local store directory of 0..40 objects produced by a simulated history: valid chunks in the store's own format, the same chunk in both formats, chunks of the other format only, invalid chunks (bit flip, truncation, other data, emptied), abandoned .tmp-cacnk* files of killed writers, junk files incl. chunk-like names x store mode {compressed, uncompressed} x one of {Prune with reference set none / all / random subset / subset plus absent ids; Verify; Verify with repair, both with n in 1..6 workers sharing one writer under the seeded scheduler}; oracle: expected file set and expected set of reported ids, classified by an independent zstd+SHA validator; distinct = distinct (op, mode, object bucket, tape, trace hash); every case is non-trivial (a populated store); 1/120 of the cases run the real `desync prune -y` / `desync verify [-r]` binary on a compressed local store with unreferenced chunks, a corrupted chunk, a temporary file and junk; S3 keys with a chunk-like name in a directory that is only a prefix of the id, the whole id, empty, or upper case are among the objects that must survive; the process-level prune/verify cases run on compressed stores and on uncompressed ones named in a config file; the store directory itself may be hidden, contain blanks or end in the chunk extension, and abandoned temporary files may lie below a hidden sub-directory; the SFTP part also plants files whose names only resemble an upload's temporary name (a chunk name followed by -1, +digits, .bak, x12, 12a, _7), which must stay",
 		Assumptions: []string{
 			"the name-filter logic is a pure function of the directory listing (DESIGN.md C16 honest limit); the simulated parts are the store history (killed writers, corruption) and the concurrent Verify workers",
 			"SFTP prune is not exercised; S3 prune (1/12 of the cases) runs against a minimal in-harness S3 endpoint",
